@@ -2,7 +2,16 @@
 languages, regenerated with a different seed) executed with the verif-hooks assertions active
 inside Tensor / Matrix / MatrixPart unchecked accessors, in dev and release builds, including the
 cases whose calls panic and are followed by further use of the surviving object.  A fired hook is
-reported as result (-9), a dead child process as `abort`; both differ from every model result."""
+reported as result (-9), a dead child process as `abort`; both differ from every model result.
+Own case language (coq/theories/Run/RunC10.v), compared exactly and present also in VERIF_DEV=C10 runs
+(where nothing of the other properties is replayed):
+  (10 1..6 ..)          closure / iterator panic injection into map_mut / insert_*_with (lying size_hint)
+  (10 7 shape data ops) histories of safe Tensor mutators (valid + invalid arguments, panicking closures,
+                        writes through adaptor stacks), the tensor re-read after every step
+  (10 8 . c11-case)     Matrix mutation histories in C11's language (every slice kind, panicking steps,
+                        the same matrix re-read through the unchecked paths after every step)
+  (10 9 term)           TensorStack / TensorChain constructors, every arity and position of a mismatching
+                        source; a constructor that returns has its whole view walked"""
 import importlib, random
 from tools import vlib
 
@@ -39,8 +48,232 @@ def own_cases(tier, rng):
             yield sx([10, 6, lens, k])
 
 
+def _factorisations(n, D, rng):
+    """a random way of writing n as a product of D lengths >= 1"""
+    lens = [1] * D
+    if D == 0:
+        return lens
+    m, f = n, 2
+    primes = []
+    while m > 1:
+        while m % f == 0:
+            primes.append(f)
+            m //= f
+        f += 1
+    for q in primes:
+        lens[rng.randrange(D)] *= q
+    return lens
+
+
+def tensor_histories(tier, rng):
+    """(10 7 shape data ops): histories of safe Tensor mutators, valid and invalid arguments mixed,
+    panicking closures, writes through adaptor stacks; the generator tracks the shape the model
+    will have so that most calls are accepted (the model decides, not this tracker)."""
+    from tools.vlib import sx, MAXU
+    from tools.props import c09
+    count = 2500 if tier == "quick" else 20000
+    for it in range(count):
+        D = rng.choice([0, 1, 1, 2, 2, 2, 3, 3, 4, 5, 6]) if it % 4 else rng.choice([1, 2, 2, 3])
+        lens = [rng.choice([1, 2, 2, 3, 3, 4]) for _ in range(D)]
+        if D == 2 and rng.random() < 0.5:
+            lens[1] = lens[0]                       # the in-place square branch of reorder_mut
+        while c09.elements(lens) > 48:
+            lens[rng.randrange(D)] = 1
+        names = rng.sample(range(12), D)
+        n = c09.elements(lens)
+        data = [rng.randrange(-9, 10) + 20 * i for i in range(n)]
+        shape0 = [[a, b] for a, b in zip(names, lens)]
+        ops = []
+        for _ in range(rng.randrange(1, 9)):
+            kind = rng.choice([0, 0, 1, 2, 2, 3, 3, 4, 5, 6, 7, 7, 7])
+            bad = rng.random() < 0.3
+            if kind == 0:
+                new_lens = _factorisations(n, D, rng)
+                new_names = rng.sample(range(12), D) if rng.random() < 0.5 else list(names)
+                if bad:
+                    how = rng.randrange(6)
+                    if how == 0 and D > 0:
+                        new_lens[rng.randrange(D)] += 1
+                    elif how == 1 and D > 0:
+                        new_lens[rng.randrange(D)] = 0
+                    elif how == 2 and D > 1:
+                        new_names[0] = new_names[1]
+                    elif how == 3 and D > 1:
+                        new_lens = [2 ** 63, 2] + [1] * (D - 2)
+                    elif how == 4 and D > 1:
+                        new_lens = [MAXU, MAXU] + [1] * (D - 2)     # wraps to 1 in release arithmetic
+                    else:
+                        new_lens, new_names = new_lens + [1], new_names + [13]   # wrong D: skipped
+                ops.append([0, [[a, b] for a, b in zip(new_names, new_lens)]])
+                if not bad:
+                    names, lens = new_names, new_lens
+            elif kind == 1:
+                new_names = rng.sample(range(12), D)
+                if bad and D > 1:
+                    new_names[rng.randrange(1, D)] = new_names[0]
+                    ops.append([1, new_names])
+                else:
+                    ops.append([1, new_names])
+                    names = new_names
+            elif kind in (2, 3):
+                dims = list(names)
+                rng.shuffle(dims)
+                if bad and D > 0:
+                    how = rng.randrange(3)
+                    if how == 0:
+                        dims[rng.randrange(D)] = 14
+                    elif how == 1 and D > 1:
+                        dims[0] = dims[1]
+                    else:
+                        dims = dims[:-1]
+                    ops.append([kind, dims])
+                else:
+                    ops.append([kind, dims])
+                    new_lens = [lens[names.index(d)] for d in dims]
+                    if kind == 3:
+                        names = dims
+                    lens = new_lens
+            elif kind in (4, 5):
+                ops.append([kind, rng.randrange(0, n + 2)])
+            elif kind == 6:
+                idx = [rng.randrange(l) for l in lens]
+                if bad and D > 0:
+                    d = rng.randrange(D)
+                    idx[d] = rng.choice([lens[d], lens[d] + 1, MAXU, 2 ** 63])
+                ops.append([6, idx, rng.randrange(-500, 500)])
+            else:
+                base = [0, [[a, b] for a, b in zip(names, lens)], []]
+                term = c09.random_view(base, rng, rng.choice([1, 1, 2, 3])) if D > 0 else base
+                vnames, vlens = c09.src_shape(term)
+                steps = []
+                while term[0] != 0:
+                    steps.append([term[0], term[2]])
+                    term = term[1]
+                steps.reverse()
+                idx = [rng.randrange(l) if l > 0 else 0 for l in vlens]
+                if bad and D > 0:
+                    how = rng.randrange(4)
+                    d = rng.randrange(D)
+                    if how == 0:
+                        idx[d] = rng.choice([vlens[d], vlens[d] + 1, MAXU])
+                    elif how == 1 and steps:
+                        st = rng.choice(steps)
+                        if st[0] in (2, 5):
+                            st[1][d] = [rng.choice([lens[d], 0]), rng.choice([0, 100])]   # empty range / full mask
+                        elif D > 1:
+                            st[1] = list(st[1])
+                            if len(st[1]) > 1:
+                                st[1][0] = st[1][1]
+                    elif how == 2 and steps:
+                        steps[-1] = [steps[-1][0], steps[-1][1][:-1]]
+                    else:
+                        idx = idx + [0]
+                ops.append([7, steps, idx, rng.randrange(-500, 500)])
+        yield sx([10, 7, shape0, data, ops])
+    # a rejected constructor, a 0-dimensional history, overflowing reshapes on both profiles
+    yield sx([10, 7, [[0, 2], [0, 2]], [1, 2, 3, 4], [[4, 1]]])
+    yield sx([10, 7, [], [5], [[4, 0], [5, 1], [6, [], 9], [0, []], [7, [], [], 3], [1, []], [2, []], [3, []]]])
+    yield sx([10, 7, [[0, 2], [1, 2]], [1, 2, 3, 4],
+              [[0, [[0, MAXU], [1, MAXU]]], [0, [[0, 2 ** 63], [1, 2]]], [0, [[0, 2 ** 32], [1, 2 ** 32]]], [6, [1, 1], 7], [3, [1, 0]], [2, [0, 1]]]])
+
+
+def matrix_histories(tier, rng):
+    """(10 8 . c11-case): Matrix mutation histories in C11's case language (its generator), biased
+    towards histories containing retain_mut / retain / remove / insert_with steps (the calls that
+    validate arguments and may panic half-way); every step is followed by reads of the same matrix
+    through the unchecked paths, also after a caught panic."""
+    from tools.props import c11
+    sub = random.Random(rng.randrange(1 << 30))
+    cases = [c for c in dict.fromkeys(c11.gen(tier, sub)) if c.startswith("(11 1 ")]
+    risky = [c for c in cases if " (6 (" in c or " (7 (" in c or "(6 (" in c[8:]]
+    risky_set = set(risky)
+    rest = [c for c in cases if c not in risky_set]
+    n_risky, n_rest = (3500, 1500) if tier == "quick" else (30000, 10000)
+    picked = sub.sample(risky, min(len(risky), n_risky)) + sub.sample(rest, min(len(rest), n_rest))
+    for c in picked:
+        yield "(10 8 " + c[4:]
+
+
+def view_walks(tier, rng):
+    """(10 9 term): TensorChain / TensorStack constructors in every arity (arrays of 1..5, tuples of
+    2..4), every position of a mismatching source, every kind of mismatch (a length in a dimension
+    that must agree, a name, the order of the names, the dimensionality is fixed by the types), and
+    the matching variants; a constructor that returns has its whole view walked."""
+    from tools.vlib import sx
+    base_lens = [2, 3, 2]
+    for D in (1, 2, 3):
+        names = list(range(D))
+        lens = base_lens[:D]
+        for kind, arities in ((0, (1, 2, 3, 4, 5)), (1, (2, 3, 4))):
+            for n in arities:
+                for along in range(D):
+                    def leaves(mut=None):
+                        out = []
+                        for i in range(n):
+                            nm, ln = list(names), list(lens)
+                            ln[along] = 1 + (i % 3)          # chained lengths may differ freely
+                            if mut is not None and mut[0] == i:
+                                mut[1](nm, ln)
+                            out.append([0, i + 1, [[a, b] for a, b in zip(nm, ln)]])
+                        return out
+                    yield sx([10, 9, [10, leaves(), names[along], kind]])
+                    yield sx([10, 9, [10, leaves(), 7, kind]])              # unknown dimension
+                    # other patterns of the chained lengths (decreasing, equal, one long source)
+                    for pat in ((3, 2, 1, 3, 2), (2, 2, 2, 2, 2), (1, 4, 1, 1, 2), (1, 1, 3, 2, 1)):
+                        alt = leaves()
+                        for i, lf in enumerate(alt):
+                            lf[2][along][1] = pat[i]
+                        yield sx([10, 9, [10, alt, names[along], kind]])
+                    for p in range(n):
+                        muts = []
+                        for d in range(D):
+                            if d != along:
+                                muts.append(lambda nm, ln, d=d: ln.__setitem__(d, ln[d] + 1))
+                                muts.append(lambda nm, ln, d=d: ln.__setitem__(d, max(ln[d] - 1, 1)))
+                            muts.append(lambda nm, ln, d=d: nm.__setitem__(d, 8))
+                        if D > 1:
+                            muts.append(lambda nm, ln: (nm.reverse(), ln.reverse()))
+                        for m in muts:
+                            yield sx([10, 9, [10, leaves((p, m)), names[along], kind]])
+    for D in (0, 1, 2, 3):
+        names = list(range(D))
+        lens = base_lens[:D]
+        for kind, arities in ((0, (1, 2, 3, 4, 5)), (1, (2, 3, 4))):
+            for n in arities:
+                for pos in range(D + 2):
+                    def leaves(mut=None):
+                        out = []
+                        for i in range(n):
+                            nm, ln = list(names), list(lens)
+                            if mut is not None and mut[0] == i:
+                                mut[1](nm, ln)
+                            out.append([0, i + 1, [[a, b] for a, b in zip(nm, ln)]])
+                        return out
+                    yield sx([10, 9, [9, leaves(), pos, 9, kind]])
+                    if D > 0:
+                        yield sx([10, 9, [9, leaves(), pos, names[0], kind]])   # duplicate name
+                    if pos > D:
+                        continue
+                    for p in range(n):
+                        muts = []
+                        for d in range(D):
+                            muts.append(lambda nm, ln, d=d: ln.__setitem__(d, ln[d] + 1))
+                            muts.append(lambda nm, ln, d=d: ln.__setitem__(d, max(ln[d] - 1, 1)))
+                            muts.append(lambda nm, ln, d=d: nm.__setitem__(d, 8))
+                        if D > 1:
+                            muts.append(lambda nm, ln: (nm.reverse(), ln.reverse()))
+                        for m in muts:
+                            yield sx([10, 9, [9, leaves((p, m)), pos, 9, kind]])
+
+
 def gen(tier, rng):
     for c in own_cases(tier, rng):
+        yield c
+    for c in tensor_histories(tier, rng):
+        yield c
+    for c in matrix_histories(tier, rng):
+        yield c
+    for c in dict.fromkeys(view_walks(tier, rng)):
         yield c
     per = 1200 if tier == "quick" else 12000
     for p in vlib.ACTIVE:
